@@ -55,7 +55,7 @@ theorem containmentExclusive_spec (s : Span) (p : Nat) (h : WfSpan s) :
   · rw [Proofs.containment_eq_iff]; omega
 
 /-- The excluded case of `select_total`: on an empty child list nothing is selected — the
-    `unwrap()`s of lib.rs:343 and lib.rs:493 fail. -/
+    `unwrap()` of lib.rs:343 would fail (every caller guards against the empty list). -/
 theorem select_empty_none {α : Type} (span : α → Span) (pos : Nat) :
     selectSpanned span pos ([] : List α) = (true, none) := rfl
 
@@ -108,33 +108,51 @@ theorem visit_one_descends (pos fuel : Nat) (sp : Span) (cs : List Expr) (st : S
   refine ⟨y, hy, hyc, ?_⟩
   simp only [visitExpr, h, hy]
 
-/-- FULL STATEMENT (false for the code as it is): "for every span tree that a typed AST can give
-    rise to, at every position and with any fuel, the position search does not panic".
-    Proved part: it holds for every tree in which every `visit_one` node has a child (an
-    invariant of the AST constructors) and no pattern is the unit pattern `()` — arbitrary spans
-    (ill-nested, empty, reversed), arbitrary positions (before/after the text), arbitrary fuel.
-    Missing: the unit pattern, see `find_total_fails`. -/
-theorem find_total_partial (pos fuel : Nat) (e : Expr) (h : e.ok = true) :
+/-- The position search never panics: for EVERY span tree whose `visit_one` nodes have a child
+    (an invariant of the AST constructors: `App` has `func`, `IfElse` three children,
+    `Array`/`Tuple`/`Block` are guarded by `is_empty()`) — arbitrary spans (ill-nested, empty,
+    reversed), arbitrary patterns (including the unit pattern `()`), `Annotated` nodes anywhere,
+    arbitrary positions (before/after the text), arbitrary fuel.  This is the statement the
+    fixes 53580fe (unit pattern) and 97c12b9 (`Annotated`) make true; before them it needed the
+    extra hypothesis "no unit pattern, no `Annotated`". -/
+theorem find_total (pos fuel : Nat) (e : Expr) (h : e.ok = true) :
     complete pos fuel e ≠ .panic :=
   (Proofs.no_panic pos fuel).2.2 e _ h
+
+/-- … from any visitor state, and patterns need no hypothesis at all. -/
+theorem find_total_from (pos fuel : Nat) (e : Expr) (st : St)
+    (h : e.ok = true) : visitExpr pos fuel e st ≠ .panic :=
+  (Proofs.no_panic pos fuel).2.2 e st h
+
+theorem find_pattern_total (pos fuel : Nat) (p : Pat) (st : St) :
+    visitPat pos fuel p st ≠ .panic :=
+  (Proofs.no_panic pos fuel).1 p st
 
 /-- `let () = () in 1` (spans as the parser gives them). -/
 def unitLet : Expr :=
   .letb ⟨1, 17⟩ false [.mk (.tuple ⟨5, 7⟩ []) [] (.emptyNode ⟨10, 12⟩)] (.leaf ⟨16, 17⟩)
 
-/-- The code as it is panics: `Pattern::Tuple` with no elements reaches `field.unwrap()`
-    (lib.rs:493) at the offsets 5..8 of `let () = () in 1` (replayed on the real code: known
-    finding `panic:completion:empty-tuple-pattern`). -/
-theorem find_total_fails :
-    ∃ (e : Expr) (pos : Nat), complete pos 100 e = .panic :=
-  ⟨unitLet, 5, by rfl⟩
+/-- Regression, the OLD rule (`self.visit_pattern(field.unwrap())`, before 53580fe): on the unit
+    pattern the selection is `None` at every position, so the `unwrap()` failed wherever the
+    search reached the pattern (`let () = () in 1`, offsets 5..8; corpus/C20/d12_unit_pattern.glu). -/
+theorem find_old_rule_unit_pattern_unwrap_fails (pos : Nat) :
+    (selectSpanned Pat.span pos ([] : List Pat)).2 = none := rfl
 
-/-- With the minimal repair (treat the empty tuple pattern like the other leaf patterns) the
-    hypothesis `e.ok` only asks for what the AST constructors guarantee; in the model this is the
-    statement that the only panicking node kinds are `one _ []` and `tuple _ []`. -/
-theorem find_total_fixed (pos fuel : Nat) (e : Expr) (st : St)
-    (h : e.ok = true) : visitExpr pos fuel e st ≠ .panic :=
-  (Proofs.no_panic pos fuel).2.2 e st h
+/-- The code as it is now: the unit pattern is found like a leaf pattern. -/
+example : complete 5 100 unitLet =
+    .ok ⟨.found ⟨.pattern, ⟨5, 7⟩, .plain⟩,
+      [⟨.pattern, ⟨5, 7⟩, .plain⟩, ⟨.expr, ⟨1, 17⟩, .plain⟩, ⟨.expr, ⟨1, 17⟩, .plain⟩], [], []⟩ := by rfl
+example : complete 9 100 unitLet ≠ .panic := find_total 9 100 unitLet (by decide)
+
+/-- `[2, \g -> g, let x = True in 561]` with the body of the `let` wrapped in `Annotated` by the
+    checker (corpus/C20/d13_annotated.glu): the search now descends into the wrapped node. -/
+def annotatedArr : Expr :=
+  .one ⟨1, 34⟩ [.leaf ⟨2, 3⟩, .lambda ⟨5, 12⟩ [⟨⟨6, 7⟩, 0⟩] (.leaf ⟨11, 12⟩),
+    .letb ⟨14, 33⟩ false [.mk (.leaf ⟨18, 19⟩ (some 1)) [] (.leaf ⟨22, 26⟩)]
+      (.annotated ⟨30, 33⟩ (.leaf ⟨30, 33⟩))]
+example : annotatedArr.ok = true := by decide
+example : ∃ st, complete 31 100 annotatedArr = .ok st ∧ st.found = .found ⟨.expr, ⟨30, 33⟩, .plain⟩ :=
+  ⟨_, rfl, rfl⟩
 
 /-- `let a = 1 in let b = 2 in b`. -/
 def nestedLet : Expr :=
@@ -157,7 +175,7 @@ theorem suggest_in_scope_fails :
 def app : Expr := .one ⟨1, 10⟩ [.leaf ⟨1, 2⟩, .one ⟨4, 7⟩ [.leaf ⟨4, 5⟩, .leaf ⟨6, 7⟩], .leaf ⟨9, 10⟩]
 
 example : app.ok = true := by decide
-example : unitLet.ok = false := by decide
+example : unitLet.ok = true := by decide
 example : nestedLet.ok = true := by decide
 example : [Span.mk 1 2, ⟨4, 7⟩, ⟨9, 10⟩].Pairwise (fun a b => a.lo ≤ b.lo) := by decide
 example : selectSpanned id 5 [Span.mk 1 2, ⟨4, 7⟩, ⟨9, 10⟩] = (false, some ⟨4, 7⟩) := by decide
